@@ -46,10 +46,18 @@ import random
 import time
 import zlib
 
+# the replay workers are processes: one BLAS thread each (set before numpy is first imported)
+for _v in ('OPENBLAS_NUM_THREADS', 'OMP_NUM_THREADS', 'MKL_NUM_THREADS'):
+    os.environ.setdefault(_v, '1')
+
 from .. import tlc
 
 LEVEL = 'model_checking'
-NPROC = 4
+T0 = time.time()
+# wall clock plan (seconds after start): the replay stops taking new cases at REPLAY_END (but always gets REPLAY_MIN),
+# so that only the coverage -- never a verdict -- depends on the load of the machine
+PLAN = dict(quick=dict(nproc=5, ntlc=5, replay_end=60, replay_min=14, ntab=4),
+            thorough=dict(nproc=10, ntlc=7, replay_end=600, replay_min=150, ntab=6))
 WORKROOT = os.path.join(tlc.WORK, 'c12')
 
 MERGE_ACTIONS = ['AddSet', 'Start', 'MergeStep', 'StartFinish', 'Finish', 'Done']
@@ -174,8 +182,8 @@ def _run_job(item):
 
 
 def generate(rep, jobs):
-    """run the TLC design jobs (three at a time); -> emitted states per family"""
-    with concurrent.futures.ThreadPoolExecutor(max_workers=5) as pool:
+    """run the TLC design jobs (a few at a time); -> emitted states per family"""
+    with concurrent.futures.ThreadPoolExecutor(max_workers=PLAN[rep.tier]['ntlc']) as pool:
         results = dict(pool.map(_run_job, jobs.items()))
     rep.lap('tlc design runs')
     emitted = collections.defaultdict(list)
@@ -224,7 +232,9 @@ _STATE = {}
 def _work(task):
     """worker: replay a chunk of cases of one family"""
     import treelog
+    import warnings
     from . import c12_replay as R
+    warnings.filterwarnings('ignore', message='inexact integration')   # the gauss points only serve as interior points
     fam, cases = task
     fails = []
     tables = []
@@ -331,7 +341,7 @@ def replay(rep, cases, preds, budget):
     _STATE.update(preds=preds, deadline=time.time() + budget, seed=rep.seed)
     import nutils.mesh  # noqa: F401  (imported before the fork)
     ctx = multiprocessing.get_context('fork')
-    with ctx.Pool(NPROC) as pool:
+    with ctx.Pool(PLAN[rep.tier]['nproc']) as pool:
         outs = pool.map(_work, tasks, chunksize=1)
     tables = []
     skipped = collections.Counter()
@@ -365,12 +375,25 @@ def judge_tables(rep, tables):
     if not recs:
         raise RuntimeError('no tables exported')
     os.makedirs(WORKROOT, exist_ok=True)
-    path = os.path.join(WORKROOT, 'tables.json')
-    with open(path, 'w') as f:
-        json.dump([{k: v for k, v in t.items() if k != 'key'} for t in recs], f)
-    res = tlc.run('BasisTables', 'BasisTables.cfg', tag='c12-tables', workers=1, env=dict(VF_TABLE=path), deadlock=False, timeout=1500, heap='6g')
-    rep.add_tlc(res)
-    verdicts = {v['i']: v for v in res.emitted}
+    nchunk = max(1, min(PLAN[rep.tier]['ntab'], len(recs) // 50))
+    # chunks of equal work: records dealt out round robin in the order of their size
+    order = sorted(range(len(recs)), key=lambda i: -len(json.dumps(recs[i].get('t'))))
+    parts = [order[c::nchunk] for c in range(nchunk)]
+
+    def judge(c):
+        path = os.path.join(WORKROOT, 'tables{}.json'.format(c))
+        with open(path, 'w') as f:
+            json.dump([{k: v for k, v in recs[i].items() if k != 'key'} for i in parts[c]], f)
+        return tlc.run('BasisTables', 'BasisTables.cfg', tag='c12-tables{}'.format(c), workers=1, env=dict(VF_TABLE=path), deadlock=False, timeout=1500, heap='4g')
+    with concurrent.futures.ThreadPoolExecutor(max_workers=nchunk) as pool:
+        results = list(pool.map(judge, range(nchunk)))
+    verdicts = {}
+    for c, res in enumerate(results):
+        rep.add_tlc(res)
+        if res.violated:
+            raise RuntimeError('BasisTables: TLC reports {}'.format(res.violated))
+        for v in res.emitted:
+            verdicts[parts[c][v['i'] - 1] + 1] = v
     if len(verdicts) != len(recs):
         raise RuntimeError('BasisTables judged {} of {} records'.format(len(verdicts), len(recs)))
     kinds = collections.Counter()
@@ -392,8 +415,10 @@ def run(rep):
     quick = rep.tier == 'quick'
     rng = random.Random(rep.seed)
     jobs = plan(rep.tier, rep.seed)
-    budget = float(os.environ.get('VF_C12_BUDGET') or (40 if quick else 480))
     emitted = generate(rep, jobs)
+    plan_t = PLAN[rep.tier]
+    budget = float(os.environ.get('VF_C12_BUDGET') or max(plan_t['replay_min'], T0 + plan_t['replay_end'] - time.time()))
+    rep.extra['replay_budget_s'] = round(budget, 1)
     limits = dict(struct=420, nodal=260, hier=160, multi=90, merge=4000) if quick else dict(struct=5000, nodal=3000, hier=2000, multi=800, merge=40000)
     cases, preds, nleaves = choose(emitted, rng, limits)
     rep.extra['behaviours_generated'] = dict(struct=nleaves, **{f: len(emitted[f]) for f in ('nodal', 'hier', 'multi', 'merge')})
